@@ -520,6 +520,21 @@ def _correspondence(ctx, rng, tmp):
     compare_batch(ctx, 'to_idf', descs, lambda d: 'to_idf ' + ' '.join(_dd_tokens(d)),
                   lambda d: 'ok ' + _x(_build(d).to_idf()), key=lambda d: repr(sorted(d.items())))
 
+    # --- the model's own field-level round trip (a test of the model, labelled as such): equal for every
+    #     non-Schedule sky without wet-bulb range; the two recorded defects show as 'err:value' / unequal
+    outs = ctx.driver().run(['roundtrip ' + ' '.join(_dd_tokens(d)) for d in descs])
+    for d, o in zip(descs, outs):
+        ctx.compared += 1
+        ctx.subclaim('model_field_roundtrip', True)
+        if d['sky'][0] == 'base':
+            want = o == 'err:value'
+        elif d['wbr'] is not None:
+            want = o.startswith('ok 0 ')
+        else:
+            want = o.startswith('ok 1 ')
+        if not want:
+            ctx.disagree('roundtrip', {'desc': d}, o, 'model round trip: equal / recorded defect')
+
     # --- from_idf: texts written by to_idf, by the harness, shipped objects, malformed
     texts = []
     for d in descs[:ctx.n(250, 3000)]:
